@@ -476,7 +476,7 @@ def blocking_send_table(prog, chk):
 
         def send(I, p, node, args):
             calls.append((I.as_off(args[1]), args[2]))
-            return next(it, TOP)
+            return next(it, -1)          # a call beyond the script is already a deviation (recorded above); let it fail so that the run ends
 
         def sockread(I, p, node, args):
             after.append(len(calls))
